@@ -25,8 +25,19 @@ LEAN_MODULE = "Props.C18"
 TRUSTED = [
     "Lean 4.33 kernel; axioms propext, Classical.choice, Quot.sound only (audited by #print axioms)",
     "hand-written models lean/HapModel/Advert.lean (config number, name sanitising incl. Python re.sub/strip/replace "
-    "semantics on the three fixed patterns, TXT record, xhm_uri/base36) and lean/HapModel/AdvertSys.lean (event model "
-    "of _process_response / finish_pair / async_update_advertisement), tied to the code by this differential run",
+    "semantics on the three fixed patterns, TXT record incl. the setup hash, xhm_uri/base36), lean/HapModel/AdvertSys.lean "
+    "(event model of _process_response / finish_pair / async_update_advertisement plus the application side "
+    "config_changed / update_advertisement / unpair) and lean/HapModel/AdvertLife.lean (config number and persist file over "
+    "any number of process lifetimes: add_accessory load-or-persist, async_start, config_changed, runtime restructuring), "
+    "tied to the code by this differential run (whole TXT record of every refresh; live and persisted c# after every op)",
+    "AccessoryDriver.unpair called by the application (not through a remove-pairing request) refreshes nothing: outside the "
+    "request paths the property speaks of; modelled, tied, C18_sf_tracks_pairing excludes it and "
+    "C18_sf_tracks_after_explicit_refresh says what restores the flag",
+    "a restart compares with the configuration of the previous START: lifetimes in which the application restructured the "
+    "running accessory are tied (model = code, C18_cfg_life_runtime_change_counted_twice) but not judged by the oracle",
+    "the specification-side definitions of the theorems (ValidInstanceLabel, ValidHostLabel, xhmDecode) are run by the "
+    "driver against harness/ref/dnslabel.py and harness/ref/xhm.py; MacTailOk / PinShape are evaluated on what "
+    "util.generate_mac / generate_pincode produce",
     "to_HAP(include_value=False) modelled as a function of iid+metadata only; tied by checking that "
     "driver.accessories_hash is invariant under set_value/client_update_value on real accessories and that model "
     "rendering equality coincides with real hash equality on the generated restart pairs",
@@ -36,7 +47,8 @@ TRUSTED = [
     "M6 is never a delayed response: checked on the source (AST: only handle_resource assigns response.task) and by "
     "complete real pair-setup runs of the reference controller (harness/ref/pairsetup_client.py, srp_client.py)",
     "harness generators, harness/ref/dnslabel.py, harness/ref/xhm.py (independent oracles); a well-formed MAC "
-    "(XX:XX:XX:XX:XX:XX); safe_mode left at its default (False)",
+    "(XX:XX:XX:XX:XX:XX); safe_mode is a parameter of the event model (ordering for both values, flag tracking for the "
+    "default, C18_safe_mode_no_pairing_refresh for True) and scripts with safe_mode are tied but their staleness is not judged",
 ]
 
 MAC = "AA:BB:CC:7A:8F:A9"
@@ -337,7 +349,7 @@ def mutate_config(rng, cfg: Dict[str, Any]):
     """Return (kind, new config, structure_or_metadata_changed)."""
     new = json.loads(json.dumps(cfg))
     kinds = ["identical", "values", "values", "rename-accessory", "add-service", "remove-service", "add-char", "metadata",
-             "char-description"]
+             "char-description", "set-primary", "link-service"]
     if cfg["bridge"]:
         kinds += ["add-accessory", "remove-accessory"]
     rng.shuffle(kinds)
@@ -384,6 +396,13 @@ def mutate_config(rng, cfg: Dict[str, Any]):
             if "On" in SERVICES[svc["type"]]["vals"] and "On" not in svc["desc"]:
                 svc["desc"]["On"] = "Power " + str(rng.randrange(100))
                 return kind, new, True
+        if kind == "set-primary" and svc.get("primary") is None:
+            svc["primary"] = rng.choice([True, False])  # absent -> stated (also "primary": false is metadata)
+            return kind, new, True
+        if kind == "link-service" and len(acc["services"]) > 1 and svc.get("linked") is None:
+            others = [i for i, x in enumerate(acc["services"]) if x is not svc]
+            svc["linked"] = rng.choice(others)
+            return kind, new, True
         if kind == "add-accessory":
             new["accs"].append({"name": "Extra", "aid": max(a["aid"] for a in new["accs"]) + 1,
                                 "services": [{"type": "Switch", "opt": [], "vals": {}, "meta": {}, "desc": {}}]})
@@ -400,14 +419,21 @@ def build_accessories(m, driver, cfg):
     leaves = []
     for a in cfg["accs"]:
         acc = A.Accessory(driver, a["name"], aid=a["aid"])
+        built = []
         for s in a["services"]:
             svc = acc.add_preload_service(s["type"], chars=list(s["opt"]))
+            built.append(svc)
             for c, ov in s["meta"].items():
                 svc.get_characteristic(c).override_properties(properties=dict(ov))
             for c, v in s["vals"].items():
                 svc.get_characteristic(c).set_value(v)
             for c, d in s["desc"].items():  # last: characteristics are looked up by display name
                 svc.get_characteristic(c).display_name = d
+            if s.get("primary") is not None:
+                svc.is_primary_service = s["primary"]
+        for s, svc in zip(a["services"], built):
+            if s.get("linked") is not None and s["linked"] < len(built) and built[s["linked"]] is not svc:
+                svc.add_linked_service(built[s["linked"]])
         leaves.append(acc)
     if cfg["bridge"]:
         root = A.Bridge(driver, "Bridge")
@@ -431,7 +457,8 @@ def abstract_db(root) -> List[Dict[str, Any]]:
                 props = {k: (sorted(v.values()) if isinstance(v, dict) else v) for k, v in ch.properties.items()}
                 meta = json.dumps([str(ch.type_id), ch.display_name, props], sort_keys=True, default=str)
                 chars.append({"iid": acc.iid_manager.get_iid(ch), "meta": meta, "value": json.dumps(ch.value, default=str)})
-            smeta = json.dumps([str(s.type_id), bool(s.is_primary_service), [str(x.type_id) for x in s.linked_services]])
+            smeta = json.dumps([str(s.type_id), s.is_primary_service,
+                                [[str(x.type_id), acc.iid_manager.get_iid(x)] for x in s.linked_services]])
             svcs.append({"iid": acc.iid_manager.get_iid(s), "meta": smeta, "chars": chars})
         out.append({"aid": acc.aid, "services": svcs})
     return out
@@ -447,6 +474,7 @@ class RecAdvertiser:
     def _rec(self, what, info):
         props = dict(info.decoded_properties)
         self.events.append({"ev": what, "sf": props.get("sf"), "c#": props.get("c#"), "id": props.get("id"),
+                            "props": props,
                             "npaired": len(self.state.paired_clients), "cfg": self.state.config_version})
 
     def async_register_service(self, info, **_kw):
@@ -543,10 +571,16 @@ async def _async_noop(*_a, **_k):
 
 
 def start_driver(env):
-    """Real AccessoryDriver.async_start (mDNS + HTTP server replaced), QR code output swallowed."""
-    with contextlib.redirect_stdout(io.StringIO()):
+    """Real AccessoryDriver.async_start (mDNS + HTTP server replaced), QR code output swallowed.
+    Returns the setup payload the start printed for the user to scan (None if it printed none)."""
+    buf = io.StringIO()
+    with contextlib.redirect_stdout(buf):
         env.loop.run_until_complete(env.driver.async_start())
         spin(env.loop)
+    for line in buf.getvalue().splitlines():
+        if line.startswith("Setup payload: "):
+            return line[len("Setup payload: "):].strip()
+    return None
 
 
 def impl_restart(m, case) -> Dict[str, Any]:
@@ -704,6 +738,184 @@ def oracle_xrestart(ctx: Ctx, chain, got):
         prev = c
 
 
+# ----------------------------------------------------------------------------- stream 4c: whole lives (restarts + runtime changes)
+
+
+def _strip_values(cfg: Dict[str, Any]):
+    """Structure and metadata of a config descriptor (what a restart may react to): no values, no names."""
+    return [cfg["bridge"], [[a["aid"], [[s["type"], list(s["opt"]), s["meta"], s["desc"], s.get("primary"), s.get("linked")]
+                                        for s in a["services"]]]
+                            for a in cfg["accs"]]]
+
+
+def gen_life(rng) -> Dict[str, Any]:
+    """One accessory over 2..4 process lifetimes on one persist file; inside a lifetime: value changes,
+    config_changed(), saves, and structural changes made on the running objects."""
+    cur = gen_config(rng)
+    procs = []
+    for k in range(rng.choice([2, 3, 3, 4])):
+        kind = "first"
+        if k:
+            kind, cur, _changed = mutate_config(rng, cur)
+        ops = []
+        for _ in range(rng.choice([0, 1, 2, 3, 5])):
+            r = rng.random()
+            if r < 0.4:
+                t = rng.choice([s["type"] for a in cur["accs"] for s in a["services"]])
+                cname = rng.choice(list(SERVICES[t]["vals"]))
+                ops.append(["value", rng.randrange(4), rng.randrange(4), cname, rng.choice(SERVICES[t]["vals"][cname])])
+            elif r < 0.62:
+                ops.append(["configChanged"])
+            elif r < 0.75:
+                ops.append(["persist"])
+            else:
+                ops.append(["mutate", rng.choice(["add-service", "override", "add-accessory"]), rng.randrange(1000)])
+        procs.append({"kind": kind, "cfg": json.loads(json.dumps(cur)), "ops": ops})
+    return {"cfg0": rng.choice([None, None, 65535, 65534, 65533, rng.randrange(1, 65536)]), "procs": procs}
+
+
+def boundary_lives() -> List[Dict[str, Any]]:
+    lamp = {"type": "Lightbulb", "opt": ["Brightness"], "vals": {"On": True}, "meta": {}, "desc": {}}
+    fan = {"type": sorted(SERVICES)[0], "opt": [], "vals": {}, "meta": {}, "desc": {}}
+    a = {"bridge": False, "accs": [{"name": "Lamp", "aid": 1, "services": [lamp]}]}
+    b = {"bridge": False, "accs": [{"name": "Lamp", "aid": 1, "services": [lamp, fan]}]}
+    return [
+        # a service is added to the RUNNING accessory and announced with config_changed(); the next process is
+        # started with exactly that configuration: the restart compares with the configuration of the previous
+        # start and counts the change a second time (Props: C18_cfg_life_runtime_change_counted_twice)
+        {"cfg0": None, "procs": [{"kind": "first", "cfg": a, "ops": [["mutate", "add-service", 0], ["configChanged"]]},
+                                 {"kind": "add-service", "cfg": b, "ops": []}]},
+        # the same at the wrap: 65534 -> 65535 (start) -> 1 (config_changed) -> 2 (restart)
+        {"cfg0": 65534, "procs": [{"kind": "first", "cfg": a, "ops": [["mutate", "add-service", 0], ["configChanged"], ["persist"]]},
+                                  {"kind": "add-service", "cfg": b, "ops": [["value", 0, 1, "On", False]]},
+                                  {"kind": "identical", "cfg": b, "ops": []}]},
+        # value changes, saves and config_changed() calls only: every restart keeps the number
+        {"cfg0": 65535, "procs": [{"kind": "first", "cfg": b, "ops": [["value", 0, 1, "On", False], ["persist"], ["configChanged"]]},
+                                  {"kind": "values", "cfg": b, "ops": [["configChanged"], ["configChanged"]]},
+                                  {"kind": "identical", "cfg": b, "ops": []}]},
+    ]
+
+
+def _life_obs(env, pf):
+    with open(pf, "r", encoding="utf8") as fh:
+        disk = json.load(fh)
+    st = env.driver.state
+    return {"cfg": st.config_version, "disk_cfg": disk.get("config_version"),
+            "disk_synced": disk.get("accessories_hash") == st.accessories_hash,
+            "hash_is_live": st.accessories_hash == env.driver.accessories_hash}
+
+
+def _live_mutation(m, env, root, leaves, kind: str, k: int) -> bool:
+    """A structural / metadata change on the running accessory objects; False if not applicable."""
+    acc = leaves[k % len(leaves)]
+    if kind == "add-service":
+        acc.add_preload_service(sorted(SERVICES)[k % len(SERVICES)])
+        return True
+    if kind == "override":
+        for s in acc.services:
+            for ch in s.characteristics:
+                ovs = META_OVERRIDES.get(ch.display_name)
+                if ovs:
+                    ch.override_properties(properties=dict(ovs[k % len(ovs)]))
+                    return True
+        return False
+    if kind == "add-accessory" and hasattr(root, "accessories") and root is not acc:
+        extra = m.accessory.Accessory(env.driver, "Extra %d" % k, aid=max(root.accessories) + 1)
+        extra.add_preload_service("Switch")
+        root.add_accessory(extra)
+        leaves.append(extra)
+        return True
+    return False
+
+
+def impl_life(m, life) -> Dict[str, Any]:
+    tmp = tempfile.mkdtemp(prefix="c18-life-")
+    pf = os.path.join(tmp, "accessory.state")
+    obs: List[Dict[str, Any]] = []
+    model_ops: List[Any] = []
+    starts = []
+    try:
+        if life.get("cfg0") is not None:
+            # an earlier life left this configuration number (and no hash) behind
+            with real_driver(m, pf, patch_persist=False) as env:
+                env.driver.state.config_version = life["cfg0"]
+                env.driver.persist()
+        for proc in life["procs"]:
+            with real_driver(m, pf, patch_persist=False) as env:
+                root, leaves = build_accessories(m, env.driver, proc["cfg"])
+                env.driver.add_accessory(root)  # loads the file, or writes the fresh state
+                start_driver(env)
+                reg = env.events[0] if env.events else None
+                starts.append({"c": env.driver.state.config_version, "adv": reg["c#"] if reg else None,
+                               "id": reg["id"] if reg else None, "mutated_live": False, "stop_c": None})
+                model_ops.append(["restart", abstract_db(root)])
+                obs.append(_life_obs(env, pf))
+                for op in proc["ops"]:
+                    if op[0] == "value":
+                        acc = leaves[op[1] % len(leaves)]
+                        svcs = [s for s in acc.services if s.display_name != "AccessoryInformation"]
+                        svc = svcs[op[2] % len(svcs)]
+                        ch = next((c for c in svc.characteristics if c.display_name == op[3]), None)
+                        if ch is None:
+                            continue
+                        try:
+                            ch.set_value(op[4])
+                        except ValueError:
+                            continue
+                        model_ops.append(["value", acc.aid, acc.iid_manager.get_iid(ch), json.dumps(ch.value, default=str)])
+                    elif op[0] == "configChanged":
+                        env.driver.config_changed()
+                        spin(env.loop)
+                        model_ops.append(["configChanged"])
+                    elif op[0] == "persist":
+                        env.driver.persist()
+                        model_ops.append(["persist"])
+                    else:
+                        if not _live_mutation(m, env, root, leaves, op[1], op[2]):
+                            continue
+                        starts[-1]["mutated_live"] = True
+                        model_ops.append(["mutate", abstract_db(root)])
+                    obs.append(_life_obs(env, pf))
+                starts[-1]["stop_c"] = env.driver.state.config_version
+    finally:
+        shutil.rmtree(tmp, ignore_errors=True)
+    return {"obs": obs, "model_ops": model_ops, "starts": starts}
+
+
+def oracle_life(ctx: Ctx, life, got):
+    rep = {"kind": "life", "life": life}
+    for o in got["obs"]:
+        for c in (o["cfg"], o["disk_cfg"]):
+            if not (isinstance(c, int) and not isinstance(c, bool) and 1 <= c <= 65535):
+                ctx.fail("C18:config-number-out-of-range", f"configuration number {c} (live {o['cfg']}, file {o['disk_cfg']})", rep)
+                return
+    for s in got["starts"]:
+        if s["adv"] != str(s["c"]):
+            ctx.fail("C18:cfg-not-advertised", f"registered c#={s['adv']!r}, state {s['c']}", rep)
+            return
+        if s["id"] != MAC:
+            ctx.fail("C18:id-not-mac", f"registered id {s['id']!r}", rep)
+            return
+    # across each restart: the number the process stopped with against the one the next process starts with
+    # moves exactly when structure or metadata differ between the two configurations.  A lifetime in which the
+    # application restructured the *running* accessory is not judged (the property speaks of pairs of
+    # configurations across a restart; there the restart compares with the configuration of the previous start).
+    for k in range(1, len(got["starts"])):
+        prev, cur = got["starts"][k - 1], got["starts"][k]
+        if prev["mutated_live"]:
+            continue
+        should_move = _strip_values(life["procs"][k]["cfg"]) != _strip_values(life["procs"][k - 1]["cfg"])
+        moved = cur["c"] != prev["stop_c"]
+        kind = life["procs"][k]["kind"]
+        if moved and not should_move:
+            sig = "C18:config-number-moved-by-values" if kind in ("values", "rename-accessory") else "C18:config-number-moved-without-change"
+            ctx.fail(sig, f"restart {k} ({kind}) of a life: config number {prev['stop_c']} -> {cur['c']}", rep)
+            return
+        if should_move and not moved:
+            ctx.fail("C18:config-number-not-moved", f"restart {k} ({kind}) of a life: config number stayed {cur['c']}", rep)
+            return
+
+
 # ----------------------------------------------------------------------------- stream 5: values never move the hash
 
 
@@ -815,6 +1027,18 @@ def _uid(c: int) -> uuid.UUID:
     return uuid.UUID(int=c + 1)
 
 
+SYS_NAMES = ["Ordering", "Lamp", "\u00e9 Lamp!", "--h a p p y--", "!!!", "x" * 70, "Bridge 2"]
+
+
+def gen_sys_acc(rng) -> Dict[str, Any]:
+    """The accessory an event script runs on: name, category and the configuration number it starts with."""
+    return {"name": rng.choice(SYS_NAMES), "category": rng.choice([1, 2, 5, 8, 17, rng.randrange(256)]),
+            "cfg0": rng.choice([1, 1, 2, 65534, 65535, 65535, rng.randrange(1, 65536)])}
+
+
+DEFAULT_SYS_ACC = {"name": "Ordering", "category": 1, "cfg0": 1}
+
+
 def gen_sys_script(rng, big=False) -> Dict[str, Any]:
     nclients = rng.choice([1, 2, 3])
     paired = []
@@ -827,6 +1051,7 @@ def gen_sys_script(rng, big=False) -> Dict[str, Any]:
         conns[str(k)] = rng.choice([None, 0, 0, 1, rng.randrange(nclients)])
     steps = []
     busy: List[str] = []  # connections with a deferred response, oldest first
+    app = rng.random() < 0.5  # half of the scripts also use the application-side driver API
     for _ in range(rng.randrange(2, 14 if not big else 30)):
         r = rng.random()
         free = [c for c in conns if c not in busy]
@@ -845,6 +1070,15 @@ def gen_sys_script(rng, big=False) -> Dict[str, Any]:
             elif kind == "resource":
                 busy.append(conn)
             steps.append(st)
+        elif r < 0.62 and app:
+            # the application side of the driver API (no request, no response)
+            k = rng.random()
+            if k < 0.5:
+                steps.append({"step": "configChanged"})
+            elif k < 0.75:
+                steps.append({"step": "appRefresh"})
+            else:
+                steps.append({"step": "appUnpair", "client": rng.randrange(nclients + 1)})
         elif r < 0.7:
             steps.append({"step": "exec", "i": rng.choice([0, 0, 0, 1, 2])})
         elif r < 0.85 or not busy:
@@ -853,7 +1087,10 @@ def gen_sys_script(rng, big=False) -> Dict[str, Any]:
             steps.append({"step": "taskDone", "i": 0})
             busy.pop(0)
     steps.append({"step": "quiesce"})
-    return {"paired": paired, "conns": conns, "steps": steps}
+    script = {"paired": paired, "conns": conns, "steps": steps, "acc": gen_sys_acc(rng)}
+    if rng.random() < 0.08:
+        script["safe_mode"] = True  # the driver's documented switch: finish_pair leaves the advertisement alone
+    return script
 
 
 def gen_real_script(rng) -> Dict[str, Any]:
@@ -871,7 +1108,7 @@ def gen_real_script(rng) -> Dict[str, Any]:
         if rng.random() < 0.6:
             steps += [{"step": "request", "conn": 0, "req": "m5real", "client": (c0 + 1) % 3}] + sched()
     steps.append({"step": "quiesce"})
-    return {"paired": [], "conns": conns, "steps": steps}
+    return {"paired": [], "conns": conns, "steps": steps, "acc": gen_sys_acc(rng)}
 
 
 BOUNDARY_SCRIPTS = [
@@ -918,6 +1155,22 @@ BOUNDARY_SCRIPTS = [
     # pair-setup against an accessory that is already paired is refused at M1
     {"paired": [[0, True]], "conns": {"0": None}, "steps": [
         {"step": "request", "conn": 0, "req": "m5real", "client": 1}, {"step": "quiesce"}]},
+    # config_changed at 65535 wraps the advertised number to 1, between a pairing and its refresh
+    {"paired": [], "conns": {"0": None}, "acc": {"name": "Wrap", "category": 5, "cfg0": 65535}, "steps": [
+        {"step": "request", "conn": 0, "req": "m5", "client": 0, "ok": True}, {"step": "configChanged"},
+        {"step": "exec", "i": 0}, {"step": "drain"}, {"step": "configChanged"}, {"step": "quiesce"}]},
+    # the application unpairs the last admin through the driver API: no refresh until it asks for one
+    {"paired": [[0, True], [1, False]], "conns": {"0": 0}, "acc": {"name": "!!!", "category": 2, "cfg0": 7}, "steps": [
+        {"step": "appUnpair", "client": 0}, {"step": "drain"}, {"step": "appUnpair", "client": 2},
+        {"step": "appRefresh"}, {"step": "quiesce"}]},
+    # application-requested refresh while a pairing's own refresh is still with the executor
+    {"paired": [], "conns": {"0": None}, "acc": {"name": "x" * 70, "category": 255, "cfg0": 65534}, "steps": [
+        {"step": "request", "conn": 0, "req": "m5real", "client": 1}, {"step": "appRefresh"}, {"step": "drain"},
+        {"step": "configChanged"}, {"step": "configChanged"}, {"step": "exec", "i": 0}, {"step": "quiesce"}]},
+    # safe_mode: pairing completes, the response is written, no refresh is ever made for it
+    {"paired": [], "conns": {"0": None}, "safe_mode": True, "steps": [
+        {"step": "request", "conn": 0, "req": "m5", "client": 0, "ok": True}, {"step": "exec", "i": 0}, {"step": "drain"},
+        {"step": "appRefresh"}, {"step": "quiesce"}]},
     # failed M5 and unauthorised pairings requests change nothing
     {"paired": [], "conns": {"0": None}, "steps": [
         {"step": "request", "conn": 0, "req": "m5", "client": 0, "ok": False},
@@ -1021,10 +1274,17 @@ def impl_sys(m, script) -> Dict[str, Any]:
         current = {"conn": None}
         for c, adm in script["paired"]:
             driver.state.add_paired_client(_uname(c), bytes([c + 1]) * 32, b"\x01" if adm else b"\x00")
-        acc = m.accessory.Accessory(driver, "Ordering")
+        ident = script.get("acc") or DEFAULT_SYS_ACC
+        acc = m.accessory.Accessory(driver, ident["name"])
+        acc.category = ident["category"]
         driver.add_accessory(acc)
         with patch("pyhap.hap_protocol.HAPCrypto", PassThroughCrypto):
-            start_driver(env)
+            # the configuration number the script starts with: what async_start's hash comparison leaves behind
+            driver.state.accessories_hash = driver.accessories_hash
+            driver.state.config_version = ident["cfg0"]
+            printed_payload = start_driver(env)
+            if script.get("safe_mode"):
+                driver.safe_mode = True
             connections: Dict[Any, Any] = {}
             protos = {}
             for k, session in script["conns"].items():
@@ -1040,6 +1300,7 @@ def impl_sys(m, script) -> Dict[str, Any]:
             rid = 0
             execs_since_spin = 0
             model_steps = []
+            app_unpairs: List[int] = []  # event index at which the application unpaired somebody
 
             def flush_loop():
                 nonlocal execs_since_spin
@@ -1136,6 +1397,21 @@ def impl_sys(m, script) -> Dict[str, Any]:
                     model_steps.append({"step": "execRun", "i": st["i"]})
                 elif st["step"] == "drain":
                     flush_loop()
+                elif st["step"] == "configChanged":
+                    driver.config_changed()
+                    execs_since_spin += 1  # one more callback waits in the loop
+                    model_steps.append({"step": "configChanged"})
+                elif st["step"] == "appRefresh":
+                    driver.update_advertisement()
+                    execs_since_spin += 1
+                    model_steps.append({"step": "appRefresh"})
+                elif st["step"] == "appUnpair":
+                    try:
+                        driver.unpair(_uid(st["client"]))
+                        app_unpairs.append(len(events))
+                    except KeyError:
+                        pass  # not paired: the call raises before it touches anything
+                    model_steps.append({"step": "appUnpair", "client": st["client"]})
                 elif st["step"] == "taskDone":
                     if st["i"] < len(deferred):
                         conn, drid, fut = deferred.pop(st["i"])
@@ -1162,8 +1438,12 @@ def impl_sys(m, script) -> Dict[str, Any]:
             final = sorted([[int(u.int) - 1, bool(driver.state.is_admin(u))] for u in driver.state.paired_clients])
             pending = len(ex.pending)
             closed = sorted(k for k, p in protos.items() if p.transport.is_closing())
+            final_cfg = driver.state.config_version
+            setup_id = driver.state.setup_id
     return {"events": events, "reqs": reqs, "final": final, "model_steps": model_steps, "pending": pending,
-            "closed": closed, "dropped": dropped}
+            "closed": closed, "dropped": dropped, "final_cfg": final_cfg, "setup_id": setup_id, "printed_payload": printed_payload,
+            "pincode": bytes(driver.state.pincode).decode("ascii"), "app_unpairs": app_unpairs,
+            "ident": ident}
 
 
 def canon_sys_impl(got) -> Dict[str, Any]:
@@ -1179,18 +1459,21 @@ def canon_sys_impl(got) -> Dict[str, Any]:
         elif e["ev"] == "cipher":
             log.append(["cipher", e["conn"], cur])
         elif e["ev"] == "publish":
-            log.append(["publish", e["sf"]])
+            log.append(["publish", e["props"]])
     last = [e for e in got["events"] if e["ev"] in ("register", "publish")]
+    reg = [e for e in got["events"] if e["ev"] == "register"]
     return {"log": log, "paired": got["final"], "pending": got["pending"], "adv_sf": last[-1]["sf"] if last else None,
-            "closed": got["closed"]}
+            "closed": got["closed"], "cfg": got["final_cfg"], "registered": reg[0]["props"] if reg else None,
+            "adv": last[-1]["props"] if last else None}
 
 
 def canon_sys_model(ans) -> Dict[str, Any]:
     log = []
     for e in ans.get("log", []):
-        log.append(["publish", e[2]] if e[0] == "publish" else e)
+        log.append(["publish", dict(e[2])] if e[0] == "publish" else e)
     return {"log": log, "paired": sorted(ans.get("paired", [])), "pending": ans.get("pending"), "adv_sf": ans.get("adv_sf"),
-            "closed": sorted(ans.get("closed", []))}
+            "closed": sorted(ans.get("closed", [])), "cfg": ans.get("cfg"), "registered": dict(ans.get("registered", [])),
+            "adv": dict(ans.get("adv", []))}
 
 
 def oracle_sys(ctx: Ctx, script, got):
@@ -1206,6 +1489,27 @@ def oracle_sys(ctx: Ctx, script, got):
                 return
             if e["id"] != MAC:
                 ctx.fail("C18:id-not-mac", f"record id {e['id']!r}", rep)
+                return
+            # the advertised configuration number is the accessory's current one and stays within 1..65535
+            if not (isinstance(e["c#"], str) and e["c#"].isascii() and e["c#"].isdigit() and 1 <= int(e["c#"]) <= 65535):
+                ctx.fail("C18:config-number-out-of-range", f"record handed to the advertiser carries c#={e['c#']!r}", rep)
+                return
+            if e["c#"] != str(e["cfg"]):
+                ctx.fail("C18:cfg-not-advertised", f"record carries c#={e['c#']!r} while config_version is {e['cfg']}", rep)
+                return
+    # (1b) the setup payload printed at start for the user to scan decodes to this accessory's category,
+    #      setup code and setup id
+    if got.get("printed_payload") is not None:
+        want = {"category": got["ident"]["category"], "code": int(got["pincode"].replace("-", ""), 10), "setup_id": got["setup_id"]}
+        try:
+            d = refxhm.decode(got["printed_payload"])
+        except refxhm.XhmError as ex:
+            ctx.fail("C18:xhm-undecodable", f"printed setup payload {got['printed_payload']!r} is not a setup payload ({ex})", rep)
+            return
+        for k in ("category", "code", "setup_id"):
+            if d[k] != want[k]:
+                ctx.fail(f"C18:xhm-wrong-{k.replace('_', '-')}",
+                         f"printed setup payload {got['printed_payload']!r} decodes to {k}={d[k]!r}, accessory has {want[k]!r}", rep)
                 return
     # (2) the refreshed record of the last step of pairing / unpairing comes after that step's response:
     #     no record reaches the advertiser between the arrival of the request and the moment the response
@@ -1227,7 +1531,15 @@ def oracle_sys(ctx: Ctx, script, got):
         if w is None and quiesced:
             ctx.fail("C18:pairing-response-not-written", f"request {r['rid']} ({r['kind']}) got no response", rep)
             return
-    # (3) once everything scheduled has run, the advertised flag is that of the final state
+    # (3) once everything scheduled has run, the advertised flag is that of the final state.  Scope: pairing
+    #     histories made of protocol steps; `AccessoryDriver.unpair` called by the application itself is not
+    #     a step with a response and does not refresh anything (the application has to ask for it, as e.g.
+    #     Home Assistant does) -- such a script is judged only if a refresh was requested after the last such call
+    if script.get("safe_mode"):
+        quiesced = False  # with safe_mode the driver never refreshes after a pairing change (that is the switch)
+    if quiesced and got.get("app_unpairs"):
+        # a record built after the last application-level unpair reflects it
+        quiesced = any(e["ev"] == "publish" for e in ev[got["app_unpairs"][-1]:])
     if quiesced:
         last = [e for e in ev if e["ev"] in ("register", "publish")]
         final_unpaired = len(got["final"]) == 0
@@ -1235,6 +1547,50 @@ def oracle_sys(ctx: Ctx, script, got):
             ctx.fail("C18:advert-stale-after-pairing-change",
                      f"after all scheduled work ran the advertiser holds sf={last[-1]['sf'] if last else None!r} but "
                      f"{len(got['final'])} controllers are paired", rep)
+
+
+# ----------------------------------------------------------------------------- stream 8: specification-side definitions
+
+
+def gen_spec_cases(ctx: Ctx, labels: List[Any], uris: List[str]) -> List[Dict[str, Any]]:
+    """Labels and URIs on which the Lean-side validity predicates / reference decoder (the definitions
+    the theorems are stated with) are compared with the independent Python validators: what the code
+    really produced, plus perturbations on both sides of every rule."""
+    rng = ctx.rng
+    cases = []
+    fixed = ["", " ", "-", "a", "a" * 63, "a" * 64, "é" * 31 + "a", "é" * 31 + "ab", "é" * 32, "\U0001f600" * 15 + "abc",
+             "\U0001f600" * 16, " a", "a ", "-a", "a-", "a b", "a_b", "a.b", "A-b-9", "日本", "aé"]
+    for x in fixed:
+        cases.append({"inst": x, "host": x, "uri": "X-HM://001408XXEABCD"})
+    pert = [lambda x: " " + x, lambda x: x + " ", lambda x: "-" + x, lambda x: x + "-", lambda x: x + "x" * (64 - len(x)),
+            lambda x: x + "x" * (63 - len(x)), lambda x: x[:3] + "é" + x[3:], lambda x: x[:2] + "_" + x[2:],
+            lambda x: x.replace(" ", "", 1), lambda x: x]
+    for inst, host in labels[: ctx.n(300, 3000)]:
+        f = rng.choice(pert)
+        g = rng.choice(pert)
+        cases.append({"inst": f(inst), "host": g(host), "uri": "X-HM://001408XXEABCD"})
+    for u in uris[: ctx.n(300, 3000)]:
+        k = rng.random()
+        if k < 0.5:
+            v = u
+        elif k < 0.8:  # another digit somewhere behind the two leading ones
+            i = rng.randrange(9, 16)
+            v = u[:i] + rng.choice("0123456789ABCDEFGHIJKLMNOPQRSTUVWXYZ") + u[i + 1:]
+        else:  # not a base-36 digit
+            i = rng.randrange(7, 16)
+            v = u[:i] + rng.choice("abz!-_ é") + u[i + 1:]
+        cases.append({"inst": "a", "host": "a", "uri": v})
+    cases.append({"inst": "a", "host": "a", "uri": "x-hm://001408XXEABCD"})
+    return cases
+
+
+def impl_spec(case) -> Dict[str, Any]:
+    try:
+        d = refxhm.decode(case["uri"])
+    except refxhm.XhmError:
+        d = None
+    return {"inst_ok": dnslabel.instance_label_problem(case["inst"]) is None,
+            "host_ok": dnslabel.host_label_problem(case["host"]) is None, "xhm": d}
 
 
 # ----------------------------------------------------------------------------- constants fixed by the model
@@ -1301,9 +1657,13 @@ def run(ctx: Ctx):
     st.rule = (
         "names: boundary list + Unicode-heavy random display names (1..200 chars); non-trivial if sanitising changes the "
         "name, truncates it or falls back. cfg: op sequences around 65535; non-trivial if a wrap or a refused change occurs. "
-        "restart: config pairs through real persist/load/async_start; non-trivial unless identical. xhm: all 256 categories x "
-        "setup codes. sys: event scripts on the real HAPServerProtocol with controlled executor/loop; non-trivial if a "
-        "pairing-changing request occurs. Distinct by canonical input."
+        "restart: config pairs through real persist/load/async_start; non-trivial unless identical. life: 2..4 process lifetimes "
+        "on one persist file with value changes, config_changed, saves and live restructuring; non-trivial if anything but "
+        "identical restarts happens. xhm: all 256 categories x "
+        "setup codes. sys: event scripts on the real HAPServerProtocol with controlled executor/loop and application calls "
+        "(config_changed, update_advertisement, unpair); non-trivial if a "
+        "pairing-changing request occurs. spec: labels/URIs through the Lean-side validity predicates and decoder vs the Python "
+        "validators; non-trivial if something is rejected. Distinct by canonical input."
     )
     lines: List[Dict[str, Any]] = []
     impl: List[Any] = []
@@ -1324,6 +1684,8 @@ def run(ctx: Ctx):
             "C18_names_legacy_counterexample about these"
         )
     names_op = "names" if repaired else "names_legacy"
+    real_labels: List[Any] = []
+    real_uris: List[str] = []
     macs = [MAC, "00:00:00:Ab:cD:EF"] + [gen_mac(rng) for _ in range(6)]
     for k, name in enumerate(gen_names(ctx)):
         mac = MAC if k < len(BOUNDARY_NAMES) else macs[k % len(macs)]
@@ -1337,6 +1699,8 @@ def run(ctx: Ctx):
         else:
             impl.append({k: got.get(k) for k in ("inst", "host", "vn")})
             post.append(("names", {"name": name[:80], "len": len(name)}, lambda a: {k: a.get(k) for k in ("inst", "host", "vn")}))
+            if got.get("inst") is not None and got.get("host") is not None and k % 7 == 0:
+                real_labels.append((got["inst"], got["host"]))
         changed = "exc" in got or got["vn"] != name
         st.case(["n", _cps(name)], changed)
         st.hit("op", "names")
@@ -1369,7 +1733,7 @@ def run(ctx: Ctx):
             continue
         oracle_txt(ctx, case, got)
         lines.append({"layer": "advert", "op": "advert", "name": _cps(case["name"]), "category": case["category"],
-                      "mac": case["mac"], "cfg": case["cfg"], "paired": case["npaired"] > 0, "sh": got["props"].get("sh")})
+                      "mac": case["mac"], "cfg": case["cfg"], "paired": case["npaired"] > 0, "setup_id": case["setup_id"]})
         impl.append(got["props"])
         post.append(("txt", case, lambda a: dict(a.get("ok", []))))
         st.case(["t", case], True)
@@ -1401,6 +1765,31 @@ def run(ctx: Ctx):
         st.case(["x", case], True)
         st.hit("op", "xhm")
         st.hit("outcome", "xhm-ok" if "ok" in got else "xhm-raises")
+        if "ok" in got:
+            real_uris.append(got["ok"])
+
+    # --- the specification-side definitions against the independent validators
+    for case in gen_spec_cases(ctx, real_labels, real_uris):
+        got = impl_spec(case)
+        lines.append({"layer": "advert", "op": "spec", "inst": _cps(case["inst"]), "host": _cps(case["host"]), "uri": case["uri"]})
+        impl.append(got)
+        post.append(("spec", case, lambda a: a))
+        st.case(["sp", case], not (got["inst_ok"] and got["host_ok"]) or got["xhm"] is None)
+        st.hit("op", "spec")
+        st.hit("outcome", "spec-inst-" + ("valid" if got["inst_ok"] else "invalid"))
+        st.hit("outcome", "spec-host-" + ("valid" if got["host_ok"] else "invalid"))
+        st.hit("outcome", "spec-xhm-" + ("decodes" if got["xhm"] is not None else "rejected"))
+
+    # --- generated identities satisfy the hypotheses of the label and setup-payload theorems
+    import pyhap.util as putil
+
+    for _ in range(ctx.n(150, 2000)):
+        mac, pin = putil.generate_mac(), putil.generate_pincode().decode("ascii")
+        lines.append({"layer": "advert", "op": "ident", "mac": mac, "pin": pin})
+        impl.append({"mac_ok": True, "pin_ok": True, "code": int(pin.replace("-", ""), 10)})
+        post.append(("ident-hypotheses", {"mac": mac, "pin": pin}, lambda a: a))
+        st.case(["id", mac, pin], True)
+        st.hit("op", "ident")
 
     # --- restart pairs
     n_restart = ctx.n(80, 1000)
@@ -1428,6 +1817,27 @@ def run(ctx: Ctx):
         st.hit("outcome", "restart-" + kind + ("-moved" if got["c1"] != got["c2"] else "-kept"))
         if i == 0:
             st.sample({"restart_kind": kind, "c1": got["c1"], "c2": got["c2"], "hash_equal": got["h1"] == got["h2"]})
+
+    # --- whole lives: several process lifetimes with runtime changes in between
+    lives = boundary_lives() + [gen_life(rng) for _ in range(ctx.n(40, 500))]
+    for i, life in enumerate(lives):
+        got = impl_life(m, life)
+        oracle_life(ctx, life, got)
+        lines.append({"layer": "advert", "op": "life", "cfg0": life["cfg0"], "ops": got["model_ops"]})
+        impl.append(got["obs"])
+        post.append(("life", {"cfg0": life["cfg0"], "kinds": [p["kind"] for p in life["procs"]],
+                              "ops": [[o[0] for o in p["ops"]] for p in life["procs"]]}, lambda a: a.get("ok")))
+        st.case(["l", life], len(got["obs"]) > len(life["procs"]) or any(p["kind"] != "identical" for p in life["procs"][1:]))
+        st.hit("op", "life")
+        for o in got["model_ops"]:
+            st.hit("op", "life-" + o[0])
+        for k in range(1, len(got["starts"])):
+            moved = got["starts"][k]["c"] != got["starts"][k - 1]["stop_c"]
+            st.hit("outcome", "life-restart-" + ("after-runtime-restructuring-" if got["starts"][k - 1]["mutated_live"] else "")
+                   + life["procs"][k]["kind"] + ("-moved" if moved else "-kept"))
+        if i == 1:
+            st.sample({"life_kinds": [p["kind"] for p in life["procs"]], "cfg0": life["cfg0"],
+                       "ops": [o[0] for o in got["model_ops"]], "c#": [o["cfg"] for o in got["obs"]]})
 
     # --- values never move the hash
     for i in range(ctx.n(80, 800)):
@@ -1459,8 +1869,11 @@ def run(ctx: Ctx):
     for i, script in enumerate(scripts):
         got = impl_sys(m, script)
         oracle_sys(ctx, script, got)
+        ident = got["ident"]
         lines.append({"layer": "advert", "op": "sys", "paired": script["paired"], "steps": got["model_steps"],
-                      "sessions": [[int(k), v] for k, v in script["conns"].items() if v is not None]})
+                      "sessions": [[int(k), v] for k, v in script["conns"].items() if v is not None],
+                      "name": _cps(ident["name"]), "category": ident["category"], "mac": MAC, "cfg": ident["cfg0"],
+                      "setup_id": got["setup_id"], "safe": bool(script.get("safe_mode"))})
         impl.append(canon_sys_impl(got))
         post.append(("sys", script, canon_sys_model))
         changing = [r for r in got["reqs"] if r["m5ok"] or ((r["before"] == 0) != (r["after"] == 0))]
@@ -1469,8 +1882,12 @@ def run(ctx: Ctx):
         for s in script["steps"]:
             st.hit("op", "sys-" + (s.get("req") or s["step"]))
         st.hit("outcome", "sys-pairing-changed" if changing else "sys-no-change")
+        if script.get("safe_mode"):
+            st.hit("outcome", "sys-safe-mode-script")
         st.hit("outcome", "sys-publishes", sum(1 for e in got["events"] if e["ev"] == "publish"))
         st.hit("outcome", "sys-sessions-closed", len(got["closed"]))
+        if got.get("printed_payload") is not None:
+            st.hit("outcome", "sys-setup-payload-printed-at-start")
         st.hit("outcome", "sys-requests-dropped-on-closed-connection", got["dropped"])
         if i == 1:
             st.sample({"sys_script": script, "impl_trace": canon_sys_impl(got)})
@@ -1557,6 +1974,9 @@ def search(ctx: Ctx):
             kind, b, changed = mutate_config(rng, a)
             case = {"a": a, "b": b, "kind": kind, "changed": changed, "cfg0": rng.choice([None, 65535])}
             oracle_restart(ctx, case, impl_restart(m, case))
+        for _ in range(80):
+            life = gen_life(rng)
+            oracle_life(ctx, life, impl_life(m, life))
     finally:
         ctx.tier = saved
 
@@ -1593,6 +2013,10 @@ def replay(ctx: Ctx, r):
         got = impl_xrestart(r["chain"])
         oracle_xrestart(ctx, r["chain"], got)
         print("starts:", [(x["seed"], x["expect"], o["c"], o["h"][:8]) for x, o in zip(r["chain"]["runs"], got["outs"])])
+    elif kind == "life":
+        got = impl_life(m, r["life"])
+        oracle_life(ctx, r["life"], got)
+        print("life:", [(o[0], ob["cfg"], ob["disk_cfg"]) for o, ob in zip(got["model_ops"], got["obs"])])
     elif kind == "sys":
         got = impl_sys(m, r["script"])
         oracle_sys(ctx, r["script"], got)
